@@ -42,6 +42,7 @@ func main() {
 		Run:             run,
 		ParentSetup:     parentSetup,
 		Setup:           func(c *harness.Ctx) { cli = os.Getenv("VERIF_CLI") },
+		SpinIsViolation: true,
 		MinNonTrivial:   20,
 		RaceIsViolation: true,
 		CaseTimeout:     90 * time.Second,
@@ -142,10 +143,16 @@ func (w *countingWriter) hit() {
 		w.onCall(n)
 	}
 }
-func (w *countingWriter) CreateDir(n desync.NodeDirectory) error   { w.hit(); return w.fs.CreateDir(n) }
-func (w *countingWriter) CreateFile(n desync.NodeFile) error       { w.hit(); return w.fs.CreateFile(n) }
-func (w *countingWriter) CreateSymlink(n desync.NodeSymlink) error { w.hit(); return w.fs.CreateSymlink(n) }
-func (w *countingWriter) CreateDevice(n desync.NodeDevice) error   { w.hit(); return w.fs.CreateDevice(n) }
+func (w *countingWriter) CreateDir(n desync.NodeDirectory) error { w.hit(); return w.fs.CreateDir(n) }
+func (w *countingWriter) CreateFile(n desync.NodeFile) error     { w.hit(); return w.fs.CreateFile(n) }
+func (w *countingWriter) CreateSymlink(n desync.NodeSymlink) error {
+	w.hit()
+	return w.fs.CreateSymlink(n)
+}
+func (w *countingWriter) CreateDevice(n desync.NodeDevice) error {
+	w.hit()
+	return w.fs.CreateDevice(n)
+}
 
 func run(c *harness.Ctx, i int) {
 	desync.Digest = desync.SHA512256{}
